@@ -57,6 +57,16 @@ def run(ctx):
     # out-of-range indices alone and behind wildcards, hops into nested documents, missing paths, several arguments)
     for c in kfltext.gen_c15(ctx, 300 if quick else 3000):
         cases.append(("redact-path", c["query"], c["record"]))
+    # regular expressions: nested and overlapping quantifiers (linear for RE2, exponential for a backtracking engine) and the
+    # constructs RE2 rejects (look-around, backreferences, atomic and possessive groups), against long near-miss strings
+    pats = [r"^(a+)+$", r"^(a|a)*$", r"^(a|aa)+$", r"(x+x+)+y", r"^(/?[a-z]+)+$", r"^(?!/health)(/?[a-z]+)+$", r"^(?=a)(a+)+$", r"(a+)\1+$",
+            r"^(?>a+)+b", r"^(a++)+$", r"^(?<=x)(a*)*$", r"(?i)^(A+)+$", r"^([a-z]+)*\d$", r"^(\w+\s?)+$", r"^(.*a){12}$"]
+    subjects = ['{"a":"' + "a" * 48 + '?x=1"}', '{"a":"/' + "ab" * 30 + '!"}', '{"a":"' + "x" * 40 + '"}', '{"a":"' + "word " * 12 + '!"}',
+                '{"a":{"b":"' + "a" * 60 + 'B"}}']
+    for pat in pats:
+        for rec in subjects:
+            for q in ('a == r"%s"' % pat, 'r"%s" != a' % pat, 'a.b == r"%s"' % pat):
+                cases.append(("regex", q, rec))
     depth = 100000          # beyond what the Go stack (1 GB) carries if the parser recursed that deep
     for i, form in enumerate(kfl.DEEP_FORMS):
         d = min(depth, 20000) if i == 6 else depth          # the long dotted path is quadratic in the parser
